@@ -17,6 +17,7 @@ import (
 	"net"
 	"os"
 	"os/exec"
+	"runtime/debug"
 	"strconv"
 	"strings"
 	"sync/atomic"
@@ -26,11 +27,11 @@ import (
 )
 
 type c20Cfg struct {
-	Pid    string   `json:"pid"`   // own | other | unset | garbage | own+space
-	FDS    *string  `json:"fds"`   // nil = unset
-	Names  *string  `json:"names"` // nil = unset
-	Kinds  [3]string `json:"kinds"` // sock | file | pipe for fds 3,4,5
-	Addr   string   `json:"addr"`  // valid | invalid : the address argument given to Listen
+	Pid   string    `json:"pid"`   // own | other | unset | garbage | own+space
+	FDS   *string   `json:"fds"`   // nil = unset
+	Names *string   `json:"names"` // nil = unset
+	Kinds [3]string `json:"kinds"` // sock | file | pipe for fds 3,4,5
+	Addr  string    `json:"addr"`  // valid | invalid : the address argument given to Listen
 	// filled by the parent
 	Product  string    `json:"product,omitempty"`
 	Fallback string    `json:"fallback,omitempty"`
@@ -473,6 +474,9 @@ type c20Env struct {
 type c20Seq struct {
 	First  c20Cfg `json:"first"`
 	Second c20Env `json:"second"`
+	// Sequential: the first service is shut down before the second is started (used when both adopt the same
+	// descriptor); otherwise the second starts while the first runs
+	Sequential bool `json:"sequential,omitempty"`
 }
 
 func c20Seqs() []c20Seq {
@@ -491,7 +495,9 @@ func c20Seqs() []c20Seq {
 			c1 := c20Cfg{Pid: a.Pid, FDS: a.FDS, Names: a.Names, Kinds: [3]string{"sock", "sock", "sock"}, Addr: "valid"}
 			c2 := c20Cfg{Pid: b.Pid, FDS: b.FDS, Names: b.Names, Kinds: c1.Kinds}
 			if s1, s2 := refActivation(c1), refActivation(c2); s1 >= 0 && s1 == s2 {
-				continue // the same descriptor adopted twice in one process: not a situation the property describes
+				// the same descriptor adopted twice in one process: one after the other (Listen, Shutdown, Listen)
+				out = append(out, c20Seq{First: c1, Second: b, Sequential: true})
+				continue
 			}
 			out = append(out, c20Seq{First: c1, Second: b})
 		}
@@ -559,18 +565,40 @@ func c20SeqHelper(args []string) int {
 		}
 	}
 	c := q.First
+	if q.Sequential {
+		// no collection between the two decisions: whether the first decision's os.File is finalised (closing the
+		// inherited descriptor) before the second looks at it is a matter of timing that is not under test
+		debug.SetGCPercent(-1)
+	}
 	s1, d1 := start("1", c.Product, c.Fallback, c.Pid, c.FDS, c.Names)
 	if s1 == nil {
 		return 0
+	}
+	stdin := bufio.NewReader(os.Stdin)
+	if q.Sequential {
+		stdin.ReadString('\n') // the parent has looked at the first service
+		s1.Shutdown()
+		select {
+		case err := <-d1:
+			fmt.Println("DONE1", err)
+		case <-time.After(60 * time.Second):
+			fmt.Println("DONE1 timeout")
+		}
+		d1 = nil
 	}
 	s2, d2 := start("2", c.Product+"-second", c.Fallback+"-second", q.Second.Pid, q.Second.FDS, q.Second.Names)
 	if s2 == nil {
 		return 0
 	}
-	io.Copy(io.Discard, os.Stdin)
-	s1.Shutdown()
+	io.Copy(io.Discard, stdin)
+	if d1 != nil {
+		s1.Shutdown()
+	}
 	s2.Shutdown()
 	for _, d := range []chan error{d1, d2} {
+		if d == nil {
+			continue
+		}
 		select {
 		case err := <-d:
 			fmt.Println("DONE", err)
@@ -625,9 +653,15 @@ func runC20Seq(q c20Seq) (msg, key, outcome string) {
 	}
 	rd := bufio.NewReader(stdout)
 	lines := make(chan string, 2)
+	done1 := ""
 	go func() {
-		for i := 0; i < 2; i++ {
+		for i := 0; i < 2; {
 			l, err := rd.ReadString('\n')
+			if strings.HasPrefix(l, "DONE1") {
+				done1 = strings.TrimSpace(l)
+				continue
+			}
+			i++
 			lines <- strings.TrimSpace(l)
 			if err != nil || !strings.HasPrefix(l, "READY") {
 				return
@@ -684,6 +718,9 @@ func runC20Seq(q c20Seq) (msg, key, outcome string) {
 				finish()
 				return fmt.Sprintf("GetInfo on %s: product %q err %v, want %q", addr, prod, err, cfg.Product), "symptom=endpoint-not-served which=" + which + " " + hist, ""
 			}
+			if i == 0 && q.Sequential {
+				io.WriteString(stdin, "next\n")
+			}
 		default:
 			finish()
 			return "helper said: " + line + " stderr: " + stderr.String(), "infra", ""
@@ -692,7 +729,14 @@ func runC20Seq(q c20Seq) (msg, key, outcome string) {
 	stdin.Close()
 	rest, _ := io.ReadAll(rd)
 	cmd.Wait()
-	if strings.Count(string(rest), "DONE <nil>") != 2 {
+	wantDone := 2
+	if q.Sequential {
+		wantDone = 1
+		if done1 != "DONE1 <nil>" {
+			return "the first service's Listen ended with " + done1 + " after Shutdown", "symptom=shutdown-error " + hist, ""
+		}
+	}
+	if strings.Count(string(rest), "DONE <nil>") != wantDone {
 		return "after Shutdown the helper reported " + strings.TrimSpace(string(rest)) + " " + stderr.String(), "symptom=shutdown-error " + hist, ""
 	}
 	return "", "", fmt.Sprintf("history: first %s, second %s", selWord(refActivation(*c)), selWord(refActivation(second)))
